@@ -7,6 +7,7 @@ package main
 import (
 	"fmt"
 	"go/types"
+	"strconv"
 
 	"golang.org/x/tools/go/ssa"
 )
@@ -385,4 +386,128 @@ func init() {
 		sinkOf(th, args[0]).failNext = c.IsConst() && c.Val == 1
 		return nil
 	}
+}
+
+// ---- sync.Map: an ordered entry list with interface keys (its real code uses unsafe
+// pointers); every operation is a scheduling point and synchronises like a mutex ----------
+
+func (m *Machine) syncMap(p *Value) *Map {
+	if m.syncMaps == nil {
+		m.syncMaps = map[*Value]*Map{}
+	}
+	mp := m.syncMaps[p]
+	if mp == nil {
+		m.mapIDs++
+		mp = &Map{KeyT: types.NewInterfaceType(nil, nil), id: m.mapIDs}
+		m.syncMaps[p] = mp
+	}
+	return mp
+}
+
+func init() {
+	I := intrinsics
+	sm := func(th *Thread, args []Value, what string) *Map {
+		p := args[0].(*Value)
+		if p == nil {
+			th.rtPanic("invalid memory address or nil pointer dereference (nil *sync.Map)")
+		}
+		th.schedPoint("sync.Map." + what)
+		st := lockOfMap(th, p)
+		th.hbAcquire(st.vc)
+		th.hbRelease(&st.vc)
+		return th.m.syncMap(p)
+	}
+	I["(*sync.Map).Load"] = func(th *Thread, fn *ssa.Function, args []Value) Value {
+		mp := sm(th, args, "Load")
+		if e := th.mapFind(mp, args[1]); e != nil {
+			return Tuple{copyVal(e.V), th.m.ts.Bool(true)}
+		}
+		return Tuple{Iface{}, th.m.ts.Bool(false)}
+	}
+	I["(*sync.Map).Store"] = func(th *Thread, fn *ssa.Function, args []Value) Value {
+		mp := sm(th, args, "Store")
+		th.mapInsert(mp, args[1], args[2])
+		return nil
+	}
+	I["(*sync.Map).LoadOrStore"] = func(th *Thread, fn *ssa.Function, args []Value) Value {
+		mp := sm(th, args, "LoadOrStore")
+		if e := th.mapFind(mp, args[1]); e != nil {
+			return Tuple{copyVal(e.V), th.m.ts.Bool(true)}
+		}
+		th.mapInsert(mp, args[1], args[2])
+		return Tuple{args[2], th.m.ts.Bool(false)}
+	}
+	I["(*sync.Map).Delete"] = func(th *Thread, fn *ssa.Function, args []Value) Value {
+		mp := sm(th, args, "Delete")
+		if e := th.mapFind(mp, args[1]); e != nil {
+			e.Deleted = true
+		}
+		return nil
+	}
+	I["(*sync.Map).LoadAndDelete"] = func(th *Thread, fn *ssa.Function, args []Value) Value {
+		mp := sm(th, args, "LoadAndDelete")
+		if e := th.mapFind(mp, args[1]); e != nil {
+			e.Deleted = true
+			return Tuple{copyVal(e.V), th.m.ts.Bool(true)}
+		}
+		return Tuple{Iface{}, th.m.ts.Bool(false)}
+	}
+	I["(*sync.Map).Range"] = func(th *Thread, fn *ssa.Function, args []Value) Value {
+		mp := sm(th, args, "Range")
+		snap := append([]*MapEntry{}, mp.Entries...)
+		for _, e := range snap {
+			if e.Deleted {
+				continue
+			}
+			r := th.call(th.fr, 0, args[1], []Value{copyVal(e.K), copyVal(e.V)})
+			if t, ok := r.(*Term); ok && t.IsFalse() {
+				break
+			}
+		}
+		return nil
+	}
+
+	// strconv on concrete numbers: evaluated natively
+	I["strconv.FormatFloat"] = func(th *Thread, fn *ssa.Function, args []Value) Value {
+		m := th.m
+		f, fmtc, prec, bits := args[0].(*Term), args[1].(*Term), args[2].(*Term), args[3].(*Term)
+		if !f.IsConst() || !fmtc.IsConst() || !prec.IsConst() || !bits.IsConst() {
+			m.unsupported("strconv.FormatFloat of a symbolic value")
+		}
+		return Str{C: strconv.FormatFloat(f64(f.Val), byte(fmtc.Val), int(prec.Signed()), int(bits.Signed()))}
+	}
+	I["strconv.AppendFloat"] = func(th *Thread, fn *ssa.Function, args []Value) Value {
+		m := th.m
+		f, fmtc, prec, bits := args[1].(*Term), args[2].(*Term), args[3].(*Term), args[4].(*Term)
+		if !f.IsConst() || !fmtc.IsConst() || !prec.IsConst() || !bits.IsConst() {
+			m.unsupported("strconv.AppendFloat of a symbolic value")
+		}
+		out := append(Slice{}, args[0].(Slice)...)
+		for _, c := range []byte(strconv.FormatFloat(f64(f.Val), byte(fmtc.Val), int(prec.Signed()), int(bits.Signed()))) {
+			out = append(out, m.ts.Const(8, uint64(c)))
+		}
+		return out
+	}
+	I["strconv.AppendInt"] = func(th *Thread, fn *ssa.Function, args []Value) Value {
+		m := th.m
+		v, base := args[1].(*Term), args[2].(*Term)
+		if !v.IsConst() || !base.IsConst() {
+			m.unsupported("strconv.AppendInt of a symbolic value")
+		}
+		out := append(Slice{}, args[0].(Slice)...)
+		for _, c := range []byte(strconv.FormatInt(v.Signed(), int(base.Signed()))) {
+			out = append(out, m.ts.Const(8, uint64(c)))
+		}
+		return out
+	}
+}
+
+func lockOfMap(th *Thread, p *Value) *mutexState {
+	m := th.m
+	st := m.mutexes[p]
+	if st == nil {
+		st = &mutexState{}
+		m.mutexes[p] = st
+	}
+	return st
 }
